@@ -394,19 +394,20 @@ def gen_case(rng, quick):
 
 
 ERR_SPECIALS = [INF, NAN, 0.0, 0.5]
-VAL_SPECIALS = [INF, -INF, NAN, 0.0, 1.5]
+VAL_SPECIALS = [INF, -INF, NAN, 0.0, -0.0, 1.5, -1.5]
 
 
 def special_pair_cases():
     '''every combination of (inf, nan, 0, finite) errors and (+-inf, nan, 0, finite) values across
-    the two sides: 16 x 25 bins'''
+    the two sides: 16 x 49 = 784 bins, exhaustively, each under four memory layouts'''
     grid = [(v1, e1, v2, e2) for e1 in ERR_SPECIALS for e2 in ERR_SPECIALS
             for v1 in VAL_SPECIALS for v2 in VAL_SPECIALS]
     out = []
-    for k, ndf in enumerate([None, 10, 10 ** 6, 1]):
-        part = grid[k * 100:(k + 1) * 100]
+    assert len(grid) == 784
+    for k, ndf in enumerate([None, 10, 10 ** 6, 1, 2, 1000, 10001]):
+        part = grid[k * 112:(k + 1) * 112]
         for lay in ('C', 'F', 'P', 'N'):          # all four arrays in the same layout
-            case = mk([4, 25], 0.05, ndf, ([b[0] for b in part], [b[1] for b in part]),
+            case = mk([4, 28], 0.05, ndf, ([b[0] for b in part], [b[1] for b in part]),
                       ([b[2] for b in part], [b[3] for b in part]))
             case['layouts'] = [[lay, lay], [lay, lay]]
             out.append(case)
@@ -583,6 +584,12 @@ def run(ctx):
                          'model differ from the implementation: ' + json.dumps(obs)[:400],
                          {'case': case, 'obs': obs})
     ctx.extra['model_cases_compared'] = len(done)
+    grid_cases = [c for c, _ in done if c['shape'] == [4, 28] and len(c['datasets'][0][0]) == 112]
+    ctx.extra['exhaustive_special_value_grid'] = {
+        'complete': len(grid_cases) == 28 and not ctx.corr_broken,
+        'bins': 784,
+        'bound': 'one bin (v1, e1, v2, e2): errors in {inf, NaN, 0, 0.5}^2 x values in {+inf, -inf, NaN, +0, -0, 1.5, '
+                 '-1.5}^2, every combination, each under 4 memory layouts, compared with the model in Coq and the oracle'}
     ctx.assumptions = ['scipy.special.ndtri/stdtrit/ndtr/stdtr are the ground truth for critical values and p-values',
                        'Python float arithmetic is the ground truth for the statistic',
                        'the model is fed the implementation\'s own threshold and p-values (scipy is external)']
